@@ -59,6 +59,8 @@ type VC struct {
 	localObjs  map[*Term]*localObj // objects allocated by the function under verification that have not escaped
 	localOrder []*Term
 	escWhy     string
+	nooverflow bool // signed additions, subtractions and multiplications must stay within the machine range
+	heldBy     map[*Term][]Val
 	cellAlloc  map[int]*ssa.Alloc
 	matchedAsserts map[*CallAssert]bool
 	seenCallees    map[string]bool
@@ -876,6 +878,7 @@ func (vc *VC) isFreshRef(t *Term) bool {
 func (vc *VC) loopWrites(fx *FuncCtx, L *Loop, st *State, fr *Frame) (cells []int, keys []string, freshOnly map[string]bool) {
 	vc.dry++
 	savedCell, savedAlloc := vc.nextCell, vc.nAlloc
+	savedBase := vc.allocBase
 	lmark := vc.markLocals()
 	savedDW := vc.dryWrites
 	vc.dryWrites = nil
@@ -893,6 +896,7 @@ func (vc *VC) loopWrites(fx *FuncCtx, L *Loop, st *State, fr *Frame) (cells []in
 	exits, backs := vc.execRegion(fx, L, s0, f, ephi)
 	vc.dry--
 	vc.nextCell, vc.nAlloc = savedCell, savedAlloc
+	vc.allocBase = savedBase
 	vc.resetLocals(lmark)
 	notFresh := map[string]bool{}
 	for _, w := range vc.dryWrites {
@@ -1104,6 +1108,9 @@ func (vc *VC) execLoop(fx *FuncCtx, L *Loop, st *State, fr *Frame, ins []*State)
 		}
 		h.heap[k] = nh
 		h.touchKey(k)
+		if monotoneCounters[k] {
+			vc.assume(h, Ge(nh, st.heapVar(ki)))
+		}
 	}
 	hphi := map[*ssa.Phi]Val{}
 	for phi := range ephi {
@@ -1227,6 +1234,7 @@ func (vc *VC) inferUnchanged(fx *FuncCtx, L *Loop, st *State, fr *Frame, ephi ma
 		mark := len(vc.assumes)
 		gmark := len(vc.gfacts)
 		savedCell, savedAlloc, savedSeq := vc.nextCell, vc.nAlloc, vc.deferSeq
+		savedBase := vc.allocBase
 		lmark := vc.markLocals()
 		savedCalls := map[string]int{}
 		for k, v := range vc.callSeq {
@@ -1317,6 +1325,7 @@ func (vc *VC) inferUnchanged(fx *FuncCtx, L *Loop, st *State, fr *Frame, ephi ma
 		vc.assumes = vc.assumes[:mark]
 		vc.gfacts = vc.gfacts[:gmark]
 		vc.nextCell, vc.nAlloc, vc.deferSeq = savedCell, savedAlloc, savedSeq
+		vc.allocBase = savedBase
 		vc.resetLocals(lmark)
 		vc.callSeq = savedCalls
 		for k := range fx.locals {
